@@ -259,6 +259,14 @@ pub fn modes_zero() -> Vec<GenCfg> {
     let mut d = GenCfg::base("mixed");
     d.zero_pct = 15;
     v.push(d);
+    // long runs of cancelled ids in front of live orders, then small matches
+    let mut e = GenCfg::base("cancel-burst-then-match");
+    e.len = (120, 320);
+    e.max_resting = 5;
+    e.absent_pct = 3;
+    e.zero_pct = 5;
+    e.op_w = [44, 5, 42, 3, 0, 0, 6, 0, 0];
+    v.push(e);
     v
 }
 
